@@ -104,11 +104,8 @@ func genColumn(t *rapid.T, chars string, alpha string, n int, mixed bool) string
 		for _, c := range cs {
 			for j := 0; j < per; j++ {
 				b[pos] = c
-				if mixed && rapid.Bool().Draw(t, "tl") {
+				if mixed && fold(c) >= 'A' && fold(c) <= 'Z' && rapid.Bool().Draw(t, "tl") {
 					b[pos] = fold(c) + 32
-					if fold(c) < 'A' || fold(c) > 'Z' {
-						b[pos] = c
-					}
 				}
 				pos++
 			}
@@ -570,7 +567,7 @@ func checkSiteMeasures(c siteCase) (o pbt.Outcome, err error) {
 		other = 'N'
 	}
 	// entropy, sites -1..L
-	multi := false
+	multi, anyNaN := false, false
 	for _, rg := range []bool{false, true} {
 		for j := -1; j <= l; j++ {
 			got, e := al.Entropy(j, rg)
@@ -587,12 +584,15 @@ func checkSiteMeasures(c siteCase) (o pbt.Outcome, err error) {
 			if !eqF(got, want, 1e-12) {
 				return o, fmt.Errorf("Entropy(%d, removegaps=%v) of %q = %v, -sum p ln p = %v", j, rg, col(a, j), got, want)
 			}
-			again, _ := al.Entropy(j, rg)
-			if !eqF(again, got, 0) {
-				return o, fmt.Errorf("Entropy(%d, %v) differs between two calls: %v %v", j, rg, got, again)
+			// repeated calls: bit for bit the same answer (fix 5fabe28: fixed summation order)
+			for rep := 0; rep < 5; rep++ {
+				again, _ := al.Entropy(j, rg)
+				if math.Float64bits(again) != math.Float64bits(got) && !(math.IsNaN(again) && math.IsNaN(got)) {
+					return o, fmt.Errorf("Entropy(%d, %v) of %q differs between two calls: %v (%#x) then %v (%#x)", j, rg, col(a, j), got, math.Float64bits(got), again, math.Float64bits(again))
+				}
 			}
 			if math.IsNaN(want) {
-				o.Class("entropy:NaN-nothing-counted")
+				anyNaN = true
 			}
 			if want > 0 {
 				multi = true
@@ -744,13 +744,18 @@ func checkSiteMeasures(c siteCase) (o pbt.Outcome, err error) {
 				}
 			}
 		}
-		o.Class("pssm:norm=%d,log=%v,pseudo>0=%v", c.Norm, c.Log, c.Pseudo > 0)
+		if rep == 0 {
+			o.Class("pssm:norm=%d,log=%v,pseudo>0=%v", c.Norm, c.Log, c.Pseudo > 0)
+		}
 	}
 	if !gen.SameRows(gen.Snapshot(al), a.Rows) {
 		return o, fmt.Errorf("a site measure modified the alignment")
 	}
 	o.NonTrivial = multi
 	o.Class("alphabet=%s", a.Alphabet)
+	if anyNaN {
+		o.Class("entropy:NaN-nothing-counted")
+	}
 	if nInfo > 0 {
 		o.Class("informative-site-present")
 	}
